@@ -3,7 +3,6 @@ package rtr
 import (
 	"fmt"
 	"testing"
-	"testing/synctest"
 	"time"
 
 	"pgregory.net/rapid"
@@ -39,7 +38,7 @@ func TestC05(t *testing.T) {
 			labels []string
 		}
 		var rows []row
-		synctest.Test(t, func(t *testing.T) {
+		bubble(t, func() {
 			time.Sleep(30 * 365 * 24 * time.Hour)
 			l := newLab(func(f string, a ...any) { fail = fmt.Sprintf(f, a...) }, labCfg{master: rapid.SliceOfN(rapid.Byte(), 16, 16).Draw(rt, "masterKey")})
 			if fail != "" {
